@@ -19,10 +19,51 @@ class Roles(dict):
         return self[k]
 
 
-def _self_attr(e) -> str | None:
-    if isinstance(e, ast.Attribute) and isinstance(e.value, ast.Name) and e.value.id == "self":
-        return e.attr
+_ALIASES: dict = {}  # while resolving one function: local name -> attribute path below self (`result = self._result`)
+_OWNER: dict = {}  # leaf attribute -> path of the object that holds it, below the cursor (() = the cursor itself)
+
+
+def _path(e) -> tuple | None:
+    """attribute path below `self` of `self.a`, `self.a.b`, or `x.b` where the local x aliases `self.a`"""
+    if isinstance(e, ast.NamedExpr):
+        return _path(e.value)
+    if isinstance(e, ast.Attribute):
+        if isinstance(e.value, ast.Name):
+            if e.value.id == "self":
+                return (e.attr,)
+            if e.value.id in _ALIASES:
+                return (*_ALIASES[e.value.id], e.attr)
+            return None
+        base = _path(e.value)
+        return (*base, e.attr) if base else None
+    if isinstance(e, ast.Name) and e.id in _ALIASES:
+        return _ALIASES[e.id]
     return None
+
+
+def _with_aliases(fn):
+    """collect `x = self.a[.b]` / `(x := self.a.b)` aliases of one function"""
+    _ALIASES.clear()
+    if fn is None:
+        return
+    for n in ast.walk(fn):
+        if isinstance(n, ast.Assign) and len(n.targets) == 1 and isinstance(n.targets[0], ast.Name):
+            p = _path(n.value)
+            if p:
+                _ALIASES[n.targets[0].id] = p
+        elif isinstance(n, ast.NamedExpr) and isinstance(n.target, ast.Name):
+            p = _path(n.value)
+            if p:
+                _ALIASES[n.target.id] = p
+
+
+def _self_attr(e) -> str | None:
+    """leaf attribute of a state location below self; the holder path is remembered in _OWNER"""
+    p = _path(e) if isinstance(e, (ast.Attribute, ast.NamedExpr)) else None
+    if not p:
+        return None
+    _OWNER[p[-1]] = tuple(p[:-1])
+    return p[-1]
 
 
 def roles(prog: Program) -> Roles:
@@ -36,7 +77,11 @@ def roles(prog: Program) -> Roles:
               paramstyle="_paramstyle", variables="_variables", conn_duck="_duck_conn", connect_lock="_connect_lock")
 
     def fn(q):
-        return m.functions.get(f"{cls}.{q}")
+        f_ = m.functions.get(f"{cls}.{q}")
+        _with_aliases(f_)
+        return f_
+
+    _OWNER.clear()
 
     # properties that return an attribute
     for prop, role in (("rowcount", "rowcount"), ("sqlstate", "sqlstate"), ("arraysize", "arraysize")):
@@ -90,14 +135,16 @@ def roles(prog: Program) -> Roles:
                     r["dict_flag"] = _self_attr(n.targets[0])
     # last_params: the other attribute stored next to last_sql at the end of _execute
     if ex is not None:
+        _with_aliases(ex)
         stores = [(_self_attr(n.targets[0]), n) for n in ast.walk(ex) if isinstance(n, ast.Assign) and _self_attr(n.targets[0])]
         for a, n in stores:
-            if isinstance(n.value, ast.Name) and n.value.id == "params":
+            if any(isinstance(x, ast.Name) and x.id == "params" for x in ast.walk(n.value)) and a not in (r["table"], r["rowcount"], r["last_sql"]):
                 r["last_params"] = a
     # connection: paramstyle snapshot, engine handle, variables mapping
     cm = prog.modules.get("conn")
     if cm is not None:
         ci = cm.functions.get("FakeSnowflakeConnection.__init__")
+        _with_aliases(ci)
         if ci is not None:
             for n in ast.walk(ci):
                 if isinstance(n, ast.Assign) and _self_attr(n.targets[0]):
@@ -108,6 +155,7 @@ def roles(prog: Program) -> Roles:
     vm = prog.modules.get("variables")
     if vm is not None:
         vi = vm.functions.get("Variables.__init__")
+        _with_aliases(vi)
         if vi is not None:
             for n in ast.walk(vi):
                 if isinstance(n, ast.Assign) and _self_attr(n.targets[0]) and isinstance(n.value, (ast.Dict, ast.Call)):
@@ -123,5 +171,7 @@ def roles(prog: Program) -> Roles:
                 break
         else:
             r["insert_frame"] = "write_pandas" if "write_pandas" in pm.functions else "_insert_df"
+    # where each piece of cursor state lives: on the cursor itself (()) or in a holder object below it (("_result",))
+    r["owner_path"] = {role: _OWNER.get(r[role], ()) for role in ("table", "index", "rowcount", "last_sql", "last_params", "sqlstate", "arraysize")}
     _cache[key] = r
     return r
